@@ -21,10 +21,12 @@ from .. import mslab, msmodel as ms
 from ..core import Result, split
 
 LEVEL = "fault_enumeration"
-RULE = ("exhaustive product for connect(starttls=True/False): STARTTLS capability {yes,no} x "
-        "pre/post-TLS SASL lists {equal, differing, post empty} x fault at {greeting, "
+RULE = ("exhaustive product for connect(starttls=True/False/1): STARTTLS capability {yes,no} x "
+        "pre/post-TLS SASL lists {equal, differing, post empty, no SASL line after TLS, only "
+        "look-alike names after TLS} x fault at {greeting, "
         "STARTTLS reply, post-TLS capabilities, authentication verdict} in {none, NO, BYE, "
-        "silence, eof, malformed} x TLS handshake outcome {ok, SSLError, "
+        "silence, eof, malformed; at the STARTTLS reply also: OK followed in clear text by a "
+        "capability listing naming another mechanism} x TLS handshake outcome {ok, SSLError, "
         "SSLCertVerificationError, OSError} x authmech {None, PLAIN, LOGIN}; and call "
         "histories {never connected, connect failed at each step, authentication refused, "
         "authenticated, after logout, authenticated then reconnect refused} x every public "
@@ -48,6 +50,7 @@ SHARD_TIMEOUT = {"quick": 600, "thorough": 3000}
 
 LOGIN, PW = "alice-login", "s3cr3t-passw0rd"
 FAULTS = [None, "NO", "BYE", "silence", "eof", "malformed"]
+INJECT = "OK+plaintext-listing"  # STARTTLS step only: clear-text bytes behind the OK
 SASLS = [(("PLAIN", "LOGIN"), None), (("PLAIN", "LOGIN"), ("LOGIN",)),
          (("PLAIN",), ("LOGIN", "PLAIN")), (("PLAIN", "LOGIN"), ()),
          (("LOGIN",), ("PLAIN",)),
@@ -68,11 +71,11 @@ TLS = ["ok", "SSLError", "SSLCertVerificationError", "OSError"]
 def connect_cases():
     out = []
     for starttls, cap, sasl, tls, mech in itertools.product(
-            (True, False), (True, False), range(len(SASLS)), TLS, (None, "PLAIN", "LOGIN")):
+            (True, False, 1), (True, False), range(len(SASLS)), TLS, (None, "PLAIN", "LOGIN")):
         if not starttls and tls != "ok":
             continue
         for step in ("greeting", "STARTTLS", "post-tls-caps", "auth-verdict"):
-            for f in FAULTS:
+            for f in FAULTS + ([INJECT] if step == "STARTTLS" else []):
                 if f is None and step != "greeting":
                     continue
                 if not starttls and step in ("STARTTLS", "post-tls-caps"):
@@ -157,7 +160,7 @@ def run_connect(case, res: Result):
     res.case(repr(case))
     res.observe("fault-points", "%s:%s" % (step, f))
     tls_must_fail = starttls and (not cap or tls != "ok" or
-                                  (step == "STARTTLS" and f is not None) or
+                                  (step == "STARTTLS" and f is not None and f != INJECT) or
                                   (step == "greeting" and f is not None))
     # a broken post-TLS capability listing leaves no SASL list: connect must fail too
     if starttls and step == "post-tls-caps" and f is not None:
@@ -304,9 +307,9 @@ def run_random_histories(shard, res: Result):
         trace = []
         for k in range(rng.randint(3, 10)):
             if rng.random() < 0.4:
-                starttls = rng.random() < 0.5
+                starttls = rng.choice([True, False, True, False, 1])
                 step = rng.choice(["greeting", "STARTTLS", "post-tls-caps", "auth-verdict"])
-                f = rng.choice(FAULTS)
+                f = rng.choice(FAULTS + ([INJECT] if step == "STARTTLS" else []))
                 pre, post = rng.choice(SASLS)
                 cap = rng.random() < 0.8
                 tls = rng.choice(TLS) if starttls else "ok"
@@ -323,8 +326,8 @@ def run_random_histories(shard, res: Result):
                                           "announces_STARTTLS": cap, "sasl": [pre, post]},
                               repr(out)[:80]])
                 must_fail = starttls and (not cap or tls != "ok" or
-                                          (f is not None and step in ("greeting", "STARTTLS",
-                                                                      "post-tls-caps")) or
+                                          (f is not None and f != INJECT and
+                                           step in ("greeting", "STARTTLS", "post-tls-caps")) or
                                           nothing_usable(post))
                 problems = check_trace(sess, sess.server, starttls, out, res, {}, must_fail)
                 if not must_fail and out == ("ret", True) and not sess.server.authenticated:
